@@ -327,6 +327,7 @@ class World:
         self.status = []  # 'new' | 'parked' | 'done' | 'crashed'
         self.error = []
         self.holders = {}  # tid -> 'R' | 'W'
+        self.entered = {}  # tid -> number of critical sections entered so far
         self.abort = False
 
     # -- called from worker threads -------------------------------------------------------------------------------
@@ -607,6 +608,7 @@ class Explorer:
                 else:
                     lock.writer_acquire()
                 w.holders[tid] = role  # becomes a holder atomically with the last shared operation of *_acquire
+                w.entered[tid] = w.entered.get(tid, 0) + 1
                 w.point(tid, ("cs", role))
                 del w.holders[tid]  # stops being one atomically with the first shared operation of *_release
                 if role == "R":
